@@ -69,6 +69,14 @@ def main():
             patch = os.path.join(d, 'patch.diff')
         props = meta['checks_run'].split()
         res = []
+        if meta.get('neutralised_by'):
+            # a later fix: commit made this change harmless (its own demo
+            # passes with the patch applied): nothing to detect any more
+            rows.append((sid, meta['property'],
+                         'no longer breaks the property since fix '
+                         + meta['neutralised_by']['fix']))
+            print(rows[-1], flush=True)
+            continue
         for prop in props:
             r = with_patch(patch, False, lambda: run_check(prop))
             if r is None:
